@@ -467,6 +467,7 @@ pub fn drive(eng: Box<dyn Engine>, ctx: Ctx, cfg: RunConfig) -> i32 {
     let mut n_viol = 0u64;
     let mut n_known = 0u64;
     let mut reported = vec![];
+    let mut transient: Vec<String> = vec![];
     let n_classes = by_class.len();
     for ((prop, class), (v, count)) in by_class {
         let budget = Duration::from_secs((cfg.minimise_budget_s / n_classes.max(1) as u64).clamp(5, cfg.minimise_budget_s.max(5)));
@@ -484,7 +485,14 @@ pub fn drive(eng: Box<dyn Engine>, ctx: Ctx, cfg: RunConfig) -> i32 {
         let confirmed = match confirmed {
             Some(c) => c,
             None => {
-                m.harness_errors.push(format!("violation class {:?} ({} hits) did not replay in a fresh worker: harness non-determinism, not reported as a violation; detail: {}", class, count, minv.detail));
+                if class.contains("hang(wall)") || class.contains("cli-hang") {
+                    // a wall-clock backstop that fired once and not again in a fresh process is
+                    // machine load, never a verdict (wall-clock limits are backstops only)
+                    transient.push(format!("{} ({} hits) did not reproduce: attributed to machine load", class, count));
+                    println!("NOTE wall-clock backstop fired {} time(s) ({}) but the case finishes normally when re-executed: machine load, not a verdict", count, class);
+                } else {
+                    m.harness_errors.push(format!("violation class {:?} ({} hits) did not replay in a fresh worker: harness non-determinism, not reported as a violation; detail: {}", class, count, minv.detail));
+                }
                 continue;
             }
         };
@@ -534,6 +542,7 @@ pub fn drive(eng: Box<dyn Engine>, ctx: Ctx, cfg: RunConfig) -> i32 {
     coverage.insert("known_findings_seen".into(), json!(n_known));
     coverage.insert("recorded_witnesses_reexecuted".into(), json!(witnesses_run));
     coverage.insert("harness_errors".into(), json!(m.harness_errors));
+    coverage.insert("transient_wall_clock_timeouts".into(), json!(transient));
     if let Value::Object(o) = eng.extra_evidence(&m.stats) {
         for (k, v) in o {
             coverage.insert(k, v);
